@@ -647,8 +647,8 @@ func judgeLookups(res *core.CaseResult, w *dbgWorld, id string, cs *clientSnap, 
 					break
 				}
 			}
-			if want >= 0 && (got[i] < 0 || got[i] >= len(cs.parsed) || cs.parsed[got[i]].TimeSum != p.u) {
-				res.Violate("C16/lookup/TxAtMachTime", fmt.Sprintf("TxAtMachTime(%d) = %d (TimeSum %d), a scan finds a record with that sum at %d", p.u, got[i], sumAt(cs, got[i]), want), nil)
+			if want >= 0 && got[i] != want {
+				res.Violate("C16/lookup/TxAtMachTime", fmt.Sprintf("TxAtMachTime(%d) = %d (TimeSum %d), a linear scan finds the first record with that sum at %d", p.u, got[i], sumAt(cs, got[i]), want), nil)
 				return
 			}
 		case "TxAtQueueTick":
